@@ -13,6 +13,7 @@ use serde_json::{json, Value};
 
 mod evalcmd;
 mod parsecmd;
+mod manifestcmd;
 mod util;
 
 type Handler = fn(&Value) -> Value;
@@ -76,6 +77,7 @@ fn main() {
 	match sub {
 		"eval" => run_lines(evalcmd::handle),
 		"parse" => run_lines(parsecmd::handle),
+		"manifest" => run_lines(manifestcmd::handle),
 		"version" => println!("jrharness 1"),
 		_ => {
 			eprintln!("usage: jrharness <eval|...>");
